@@ -131,6 +131,13 @@ def run_impl(case):
                             return await section()
                         f = cache.locked(ttl=ttl, key="{name}", wait=spec["wait"], prefix="", check_interval=spec["ci"] * TICK)(g)
                         await [lambda: f(key), lambda: f(name=key), lambda: f(key, pad=0), lambda: f(pad=0, name=key)][(i + spec["ttl"]) % 4]()
+                    elif spec["via"] == "locked_gen" and (i + spec["ttl"]) % 2:
+                        # an async generator whose lock key is a template over its arguments: calls with different arguments guard different keys
+                        async def gen_t(name, pad=0):
+                            yield await section()
+                        f = cache.locked(ttl=ttl, key="{name}", wait=spec["wait"], prefix="", check_interval=spec["ci"] * TICK)(gen_t)
+                        async for _ in (f(key) if i % 2 else f(name=key)):
+                            pass
                     elif spec["via"] == "locked_gen":
                         async def gen():
                             yield await section()
